@@ -7,7 +7,28 @@ from ..core import HEADER, CASE_TYPE, CHECK, MODEL_VIEW, SHARD, CASE_TIMEOUT, ob
 ID = "C02"
 THEOREMS = ["C02_phase_agreement", "C02_label_pass_is_run", "C02_label_binding", "C02_size_agree",
             "C02_opcode_size_agree", "C02_fail_not_shift", "C02_phase_check", "C02_label_final_value",
-            "C02_trace_oracle", "C02_first_pass_visits"]
+            "C02_trace_oracle", "C02_first_pass_visits",
+            "C02_text_scan", "C02_text_parse", "C02_opcode_test", "C02_engine", "C02_label_then_data", "C02_data_then_label"]
+PROOF_HEADER = "From A816 Require Import Properties.C02 Properties.C02Text."
+
+def instantiate(gen_q):
+    """Per-run: the table side conditions of the text theorems hold on the live tables."""
+    text = (
+        "From A816 Require Import Model.Assemble Spec.BusLaws Proofs.BusProofs Proofs.ExprProofs Proofs.DataText Proofs.LabelText.\n"
+        "Require Import Run.GenBuses Run.GenOpcodes Run.GenLexicon.\n"
+        "Definition L02 : live := {| lv_low := Run.GenBuses.low_rom_bus; lv_high := Run.GenBuses.high_rom_bus; "
+        "lv_busmap := Run.GenBuses.bus_mapping; lv_optable := Run.GenOpcodes.opcode_table; "
+        "lv_prec := Run.GenOpcodes.operator_precedence; "
+        "lv_lex := mk_lexicon Run.GenLexicon.mnemonics Run.GenLexicon.mnemonics_without_operand Run.GenLexicon.keywords |}.\n"
+        "Definition C02_default : config := {| cf_rom := None; cf_defines := [] |}.\n"
+        "Lemma L02_tables : tables_ok L02 C02_default.\n"
+        "Proof. split; [vm_compute; reflexivity|split; [split; [vm_compute; reflexivity|exact I]|vm_compute; reflexivity]]. Qed.\n"
+        "Definition C02_label_then_data_live := fun fs fname => C02_label_then_data L02 fs C02_default fname.\n"
+        "Definition C02_data_then_label_live := fun fs fname => C02_data_then_label L02 fs C02_default fname.\n"
+        "Definition C02_tables_live := L02_tables.\n"
+    )
+    return text, ["C02_label_then_data_live", "C02_data_then_label_live", "C02_tables_live"]
+
 # model-tie modules whose correspondence is part of this property's check (parts of the model its theorems rest on)
 TIES = ['ASM']
 RULE = ("generated programs (all statement kinds, nested blocks/scopes/macros/loops/conditionals, *= and @= moves, "
@@ -18,7 +39,10 @@ PROVED_NOTE = ("proved: phase agreement (a successful assembly emitted every nod
                "label/.incbin symbols are bound to the label-pass address; predicted size = emitted size for every node "
                "kind in one resolver state; failure instead of shifted addresses; the model satisfies the run-time trace oracle (STrace) "
                "for every node list and start state (label value = address of its node at emission = address of the next emitting "
-               "node before any position move). Correspondence-only: nodes.py/program.py "
+               "node before any position move). ON SOURCE TEXT (Properties/C02Text.v): `*=<org>` / `name:` / `.<dl|dw|db> name` in either order "
+               "assembles (scanner, parser, generation, passes) to the little-endian address of the label and lists (name, address); "
+               "identifier lexing in statement context characterised exactly (a word whose first three letters are a mnemonic followed "
+               "by blank/newline/`.` is an OPCODE). Correspondence-only: nodes.py/program.py "
                "compute what the model computes; uniqueness of a label inside one scope is not enforced by the code "
                "(a duplicate keeps the last value) and is outside the statement proved.")
 MANIFEST = {
